@@ -3,6 +3,8 @@ pub mod c03;
 pub mod c06;
 pub mod c07;
 pub mod c09;
+pub mod c15;
+pub mod c16;
 pub mod c17;
 
 use crate::evidence::{Ctx, Meta, Report};
@@ -14,6 +16,8 @@ pub fn dispatch(ctx: &Ctx) -> Option<(Report, Meta)> {
         "C06" => c06::run(ctx),
         "C07" => c07::run(ctx),
         "C09" => c09::run(ctx),
+        "C15" => c15::run(ctx),
+        "C16" => c16::run(ctx),
         "C17" => c17::run(ctx),
         _ => return None,
     })
